@@ -32,6 +32,7 @@ func VGQueue() (*Queue[int], []int) {
 
 func VInv(q *Queue[int]) {
 	c := q.maxSize
+	v.Assert(c == v.CfgOr("c", c), "C15:inv-capacity-kept")
 	v.Assert(len(q.values) == c, "inv-len")
 	v.Assert(v.And(q.start >= 0, q.start < c), "inv-start")
 	v.Assert(v.And(q.end >= 0, q.end < c), "inv-end")
